@@ -640,6 +640,11 @@ def facet_table(ck, F, X):
                         f = model_field(W.NF.nf(a2, env))
                         if f:
                             outs.append(f)
+                    elif str(a2.get("ty") or "").startswith("&mut ") and a2.get("k") == "Path":
+                        # the out-parameter handed on as the `&mut` it already is (a row `("minInclusive", &mut self.min_inclusive)` of a table)
+                        f = model_field(W.NF.nf(a2, env))
+                        if f:
+                            outs.append(f)
                 if outs:
                     names = [l for a in args for l in lits_of(W.NF.nf(a, env))]
                     for f in outs:
